@@ -224,6 +224,29 @@ func c16Opus(c *fw.Ctx, i int) {
 			return
 		}
 		copy(in, pristine)
+		if len(in) > 0 {
+			// the same instance again: the same bytes in another buffer, and the very fragment it just returned; every result is new memory
+			same := append([]byte(nil), pristine...)
+			var out2, out3 [][]byte
+			if pv, st := fw.Guard(func() { out2 = p.Payload(mtu, same); out3 = p.Payload(mtu, out[0]) }); pv != nil {
+				c.Fail("C16/opus/payload-panics/"+fw.PanicFunc(st), fmt.Sprintf("OpusPayloader.Payload panicked on a second call: %v", pv), fw.W("input_len", len(in), "mtu", mtu, "stack", st))
+				return
+			}
+			c.Evals(2)
+			if len(out2) != 1 || len(out3) != 1 || !bytes.Equal(out2[0], pristine) || !bytes.Equal(out3[0], pristine) {
+				c.Fail("C16/opus/not-one-equal-fragment", "a later call on the same OpusPayloader does not return exactly one fragment equal to its input", wit)
+				return
+			}
+			for _, pair := range [][2][]byte{{out2[0], same}, {out3[0], out[0]}, {out2[0], out[0]}, {out3[0], out2[0]}} {
+				alo, ahi := rangeOf(pair[0])
+				blo, bhi := rangeOf(pair[1])
+				if overlaps(alo, ahi, blo, bhi) {
+					c.Fail("C16/opus/fragment-aliases-input/later-call-on-the-same-instance", "a fragment returned by a later call shares memory with that call's input or with a fragment returned earlier", wit)
+					return
+				}
+			}
+			c.Count("opus_repeat_and_feedback_calls", 1)
+		}
 		c.Shapef("opus-payload|len%s", lenClassS(len(in)))
 	} else {
 		var cat []byte
